@@ -86,7 +86,7 @@ struct SIMDVector<int64_t,simd_abi::avx512> {
         value = _mm512_setzero_si512();
         for (FASTOR_INDEX i=0; i<Size; ++i) {
             if (maska[i] == -1) {
-                ((scalar_value_type*)&value)[Size - i - 1] = a[Size - i - 1];
+                ((internal::int64_lane_t*)&value)[Size - i - 1] = a[Size - i - 1];
             }
         }
         unused(Aligned);
@@ -104,7 +104,7 @@ struct SIMDVector<int64_t,simd_abi::avx512> {
         mask_to_array(mask,maska);
         for (FASTOR_INDEX i=0; i<Size; ++i) {
             if (maska[i] == -1) {
-                a[Size - i - 1] = ((const scalar_value_type*)&value)[Size - i - 1];
+                a[Size - i - 1] = ((const internal::int64_lane_t*)&value)[Size - i - 1];
             }
         }
         unused(Aligned);
@@ -462,7 +462,7 @@ struct SIMDVector<int64_t,simd_abi::avx> {
         value = _mm256_setzero_si256();
         for (FASTOR_INDEX i=0; i<Size; ++i) {
             if (maska[i] == -1) {
-                ((scalar_value_type*)&value)[Size - i - 1] = a[Size - i - 1];
+                ((internal::int64_lane_t*)&value)[Size - i - 1] = a[Size - i - 1];
             }
         }
         unused(Aligned);
@@ -480,7 +480,7 @@ struct SIMDVector<int64_t,simd_abi::avx> {
         mask_to_array(mask,maska);
         for (FASTOR_INDEX i=0; i<Size; ++i) {
             if (maska[i] == -1) {
-                a[Size - i - 1] = ((const scalar_value_type*)&value)[Size - i - 1];
+                a[Size - i - 1] = ((const internal::int64_lane_t*)&value)[Size - i - 1];
             }
         }
         unused(Aligned);
@@ -773,7 +773,7 @@ struct SIMDVector<int64_t,simd_abi::sse> {
         value = _mm_setzero_si128();
         for (FASTOR_INDEX i=0; i<Size; ++i) {
             if (maska[i] == -1) {
-                ((scalar_value_type*)&value)[Size - i - 1] = a[Size - i - 1];
+                ((internal::int64_lane_t*)&value)[Size - i - 1] = a[Size - i - 1];
             }
         }
         unused(Aligned);
@@ -791,7 +791,7 @@ struct SIMDVector<int64_t,simd_abi::sse> {
         mask_to_array(mask,maska);
         for (FASTOR_INDEX i=0; i<Size; ++i) {
             if (maska[i] == -1) {
-                a[Size - i - 1] = ((const scalar_value_type*)&value)[Size - i - 1];
+                a[Size - i - 1] = ((const internal::int64_lane_t*)&value)[Size - i - 1];
             }
         }
         unused(Aligned);
